@@ -213,18 +213,20 @@ impl<Db: Database> StorageManager<Db> {
             ))),
         }?;
 
-        // update the cache
-        if let Some(cache) = &self.cache {
-            cache.batch_put(&records).await;
-        }
-
         // Write to the database
         self.tic_toc(
             METRIC_WRITE_TIME,
-            self.db.batch_set(records, DbSetState::TransactionCommit),
+            self.db
+                .batch_set(records.clone(), DbSetState::TransactionCommit),
         )
         .await?;
         self.increment_metric(METRIC_BATCH_SET);
+
+        // update the cache, only once the database has accepted the write: otherwise a failed
+        // commit leaves the new epoch (and its nodes) being served from the cache
+        if let Some(cache) = &self.cache {
+            cache.batch_put(&records).await;
+        }
         Ok(num_records as u64)
     }
 
